@@ -104,3 +104,23 @@ Example C31_jail_is_segmentwise :
        [100]; [100;47;112;114;111;106;47]; [100;47;112;114;111;106;47;105;110]]%N
   = [false; false; false; false; false; false; true; true].
 Proof. vm_compute. reflexivity. Qed.
+
+(* The same holds when the backing transport is a bare LocalTransport (no
+   chroot stack below the request): the relpath returned by
+   translate_client_path itself never leaves the served directory. *)
+Theorem C31_bare_backing_inside_root :
+  forall vfs rcp p segs,
+    wf_bytes p = true -> resolve_bare vfs rcp p = Ok segs ->
+    ~ In dotdot segs /\ stays_inside segs = true.
+Proof. exact bare_inside_root. Qed.
+Print Assumptions C31_bare_backing_inside_root.
+
+(* jail_info is per thread: once thread t has set up its jail, whatever OTHER
+   threads do (set up, tear down, open), an open by t is decided by t's own roots. *)
+Theorem C31_jail_is_per_thread :
+  forall ops s t roots u,
+    jget t s = Some roots ->
+    (forall o, In o ops -> jop_thread o <> t) ->
+    exists l, jail_run s (ops ++ [JOpen t u]) = l ++ [pre_open_hook (Some roots) u].
+Proof. exact jail_frame. Qed.
+Print Assumptions C31_jail_is_per_thread.
